@@ -144,6 +144,9 @@ def gen_edit_text(rng, tree, path, classes):
     if r < 0.25 or not cur:
         return gen_text(rng, cls, cookie)
     text = _decode_for_edit(cur)
+    if "def add(a, b):" in text and rng.random() < 0.2:
+        # drop a parameter while recorded calls (and old object information) still pass two arguments
+        return text.replace("def add(a, b):", "def add(a):")
     lines = text.split("\n")
     lo = 1 if cookie else 0
     pool = [l for l in LINES if l.isascii()] + _CLASS_LINES.get(cls, [])
@@ -366,7 +369,7 @@ def _move_classes(classes, src, dst):
 
 PROGRAM_TEMPLATES = [
     {
-        "m1.py": "def foo(a):\n    return a + 1\n\n\nclass K:\n    attr = 1\n\n    def meth(self):\n        return foo(self.attr)\n\n\nconst = 10\n",
+        "m1.py": "def foo(a):\n    return a + 1\n\n\ndef add(a, b):\n    return foo(a)\n\n\nsumm = add(1, 'x')\n\n\nclass K:\n    attr = 1\n\n    def meth(self):\n        return foo(self.attr)\n\n\nconst = 10\n",
         "m2.py": "from m1 import foo, K\n\nv = foo(2)\nk = K()\nw = k.meth()\n",
         "pkg/__init__.py": "",
         "pkg/m3.py": "import m1\nfrom m2 import v\n\n\ndef bar():\n    return m1.foo(v) + m1.const\n",
@@ -380,7 +383,7 @@ PROGRAM_TEMPLATES = [
     },
 ]
 
-PROGRAM_IDENTS = ["foo", "K", "const", "meth", "bar", "v", "Box", "get", "make", "run", "thing", "m1", "m3", "beta", "alpha", "attr"]
+PROGRAM_IDENTS = ["foo", "K", "const", "meth", "bar", "v", "Box", "get", "make", "run", "thing", "m1", "m3", "beta", "alpha", "attr", "add", "summ"]
 NEW_IDENTS = ["renamed", "Other", "zed", "qux", "newmod", "item"]
 
 
